@@ -30,6 +30,7 @@ type Relay struct {
 	mutex     stdsync.RWMutex
 	consumers []subscription
 
+	cacheMtx          stdsync.Mutex // Protects cache against concurrent Puts, which only hold a read lock.
 	cache             Cache
 	defaultMsgHandler func(*Envelope) // Handles messages with no subscriber.
 }
@@ -144,7 +145,10 @@ func (p *Relay) Put(e *Envelope) {
 	}
 
 	if !found {
-		if !p.cache.Put(e) {
+		p.cacheMtx.Lock()
+		cached := p.cache.Put(e)
+		p.cacheMtx.Unlock()
+		if !cached {
 			p.defaultMsgHandler(e)
 		}
 	}
